@@ -29,6 +29,7 @@ from mashumaro.config import (
 )
 from mashumaro.core.const import Sentinel
 from mashumaro.core.helpers import ConfigValue
+from mashumaro.core.meta import _verif
 from mashumaro.core.meta.code.lines import CodeLines
 from mashumaro.core.meta.helpers import (
     evaluate_forward_ref,
@@ -300,6 +301,14 @@ class CodeBuilder:
         self.globals.setdefault(module.__name__, module)
         package = module.__name__.split(".")[0]
         self.globals.setdefault(package, importlib.import_module(package))
+        if _verif.ENABLED:
+            _verif.emit(
+                "bind",
+                unit=id(self.globals),
+                name=module.__name__,
+                obj=module,
+                bound=self.globals[module.__name__],
+            )
 
     def ensure_object_imported(
         self,
@@ -307,6 +316,14 @@ class CodeBuilder:
         name: typing.Optional[str] = None,
     ) -> None:
         self.globals.setdefault(name or obj.__name__, obj)
+        if _verif.ENABLED:
+            _verif.emit(
+                "bind",
+                unit=id(self.globals),
+                name=name or obj.__name__,
+                obj=obj,
+                bound=self.globals[name or obj.__name__],
+            )
 
     def add_line(self, line: str) -> None:
         self.lines.append(line)
@@ -328,6 +345,10 @@ class CodeBuilder:
                 print(f"{type_name(self.cls)}:")
             print(code)
         exec(code, self.globals, self.__dict__)
+        if _verif.ENABLED:
+            _verif.emit(
+                "compile", cls=self.cls, code=code, globals=self.globals
+            )
 
     def evaluate_forward_ref(
         self,
